@@ -813,6 +813,10 @@ func planC09(g *Gen, tier string) GenOutput {
 	for i := 0; i < n; i++ {
 		f := g.csvFrame(scale(tier, 6, 9), 4)
 		ops := []Op{{K: "tocsv", F: 0}, {K: "csvroundtrip", F: 0}}
+		if i%5 == 0 {
+			// the file variants ToCSV(filename) / FromCSV(filename)
+			ops = []Op{{K: "tocsv", F: 0, ViaFile: true}, {K: "csvroundtrip", F: 0, ViaFile: true}}
+		}
 		res.Hists = append(res.Hists, RunHist("roundtrip", []Frame{f}, ops))
 		bump(res.Stats, fmt.Sprintf("rows=%d cols=%d", f.nrows(), len(f.Cols)))
 	}
@@ -853,7 +857,7 @@ func planC10(g *Gen, tier string) GenOutput {
 	for i := 0; i < n; i++ {
 		ops := []Op{}
 		for j := 0; j < 3; j++ {
-			ops = append(ops, Op{K: "fromcsv", Bytes: BStr(g.csvText())})
+			ops = append(ops, Op{K: "fromcsv", Bytes: BStr(g.csvText()), ViaFile: i%6 == 0})
 		}
 		res.Hists = append(res.Hists, RunHist("grammar+mutation", []Frame{}, ops))
 		bump(res.Stats, "grammar+mutation")
